@@ -8,6 +8,8 @@ use crate::{Address, Bytes, BytesN, String, Symbol, Vec, BCAP, ECAP, SCAP};
 pub const NPRINC: usize = 8;
 static mut AUTH: [bool; NPRINC] = [false; NPRINC];
 static mut AUTH_REQ: [u32; NPRINC] = [0; NPRINC];
+static mut AUTH_ARGS: [bool; NPRINC] = [false; NPRINC];
+static mut AUTH_ARGS_REQ: [u32; NPRINC] = [0; NPRINC];
 
 // ------------------------------------------------------------------ failure classes
 /// A reachable trap: the transaction is rejected.  Under Kani the path ends here.
@@ -53,6 +55,8 @@ pub fn reset() {
         while i < NPRINC {
             AUTH[i] = false;
             AUTH_REQ[i] = 0;
+            AUTH_ARGS[i] = false;
+            AUTH_ARGS_REQ[i] = 0;
             i += 1;
         }
     }
@@ -98,6 +102,21 @@ pub fn auth_required(a: &Address) -> u32 {
         crate::mfail!("MODEL:principal universe");
     }
     unsafe { AUTH_REQ[a.0 as usize] }
+}
+pub(crate) fn require_auth_for_args_impl(id: u32) {
+    if (id as usize) >= NPRINC {
+        crate::mfail!("MODEL:principal universe");
+    }
+    unsafe {
+        AUTH_ARGS_REQ[id as usize] += 1;
+        if !AUTH_ARGS[id as usize] {
+            crate::mtrap!("TRAP:require_auth_for_args failed");
+        }
+    }
+}
+/// number of custom-argument authorisation demands made on this principal
+pub fn auth_for_args_required(a: &Address) -> u32 {
+    unsafe { AUTH_ARGS_REQ[(a.0 as usize) % NPRINC] }
 }
 pub(crate) fn require_auth_impl(id: u32) {
     if (id as usize) >= NPRINC {
@@ -358,6 +377,9 @@ pub mod any {
         while i < NPRINC {
             let b: bool = kani::any();
             set_auth(&Address(i as u32), b);
+            unsafe {
+                AUTH_ARGS[i] = kani::any();
+            }
             i += 1;
         }
     }
